@@ -7,34 +7,43 @@
 (*   Fill{key,lo,n,step,kind,res} Scan{} and obs =                            *)
 (*   reads : << <<row, key, token>>, ... >>   get_property results            *)
 (*   keys  : << <<row, <<k1, ...>>>>, ... >>  get_property_keys results       *)
-(*   scans : << [key, from, to, runs : << <<lo, n, step, kind>> >>,           *)
-(*               singles : << <<row, token>> >>] >>                           *)
-(*           a run-length compressed read of EVERY row in from..to plus the   *)
-(*           listed single rows of one column (rows not mentioned read null). *)
+(*   scans : << [key, from, to, segs : << [lo, hi, step, kind, tok] >>,       *)
+(*               outs : << <<row, token>> >>] >>                              *)
+(*           a run-length compressed read of EVERY row in from..to plus       *)
+(*           single rows outside that window, of one column.                  *)
 (* res = "panic" is explained by no action: a map does not panic.             *)
 EXTENDS ColumnMap, TraceBase
 
-tvars == <<m, fills, l, sid, used, failed>>
+tvars == <<m, wr, fills, cols, l, sid, used, failed>>
 
-RunRows(rn) == {rn[1] + j * rn[3] : j \in 0..(rn[2] - 1)}
-
-\* all observation predicates are evaluated on the SUCCESSOR state (mm, fs) = (m', fills')
-ScanOK(mm, fs, s) ==
-    LET mentioned == UNION {RunRows(s.runs[i]) : i \in DOMAIN s.runs}
-                       \cup {s.singles[i][1] : i \in DOMAIN s.singles}
-    IN  /\ \A i \in DOMAIN s.runs : \A r \in RunRows(s.runs[i]) : GetOf(mm, fs, r, s.key) = Val(s.runs[i][4], r)
-        /\ \A i \in DOMAIN s.singles : GetOf(mm, fs, s.singles[i][1], s.key) = s.singles[i][2]
-        /\ \A r \in (s.from..s.to) \ mentioned : GetOf(mm, fs, r, s.key) = NULL
-        \* the scan really looked at every row where the model holds something
-        /\ \A p \in DOMAIN mm : p[2] = s.key /\ mm[p] \notin {ABSENT, NULL}
-                                  => p[1] \in mentioned \/ p[1] \in s.from..s.to
-        /\ \A i \in DOMAIN fs : fs[i].key = s.key
-                                  => fs[i].lo >= s.from /\ fs[i].lo + (fs[i].n - 1) * fs[i].step <= s.to
+\* all observation predicates are evaluated on the SUCCESSOR state.
+\* A scan of column s.key: segs tile the window s.from..s.to in order; a segment
+\* [lo, hi, step, kind, tok] says rows lo, lo+step, .. read Val(kind, row) (kind "tok": all read
+\* tok; kind "null": all read null) and the rows in between read null.  outs are single reads
+\* outside the window.
+SegOK(mm, ww, fs, key, g) ==
+    \A r \in g.lo..g.hi :
+        GetOf(mm, ww, fs, r, key) =
+            IF (r - g.lo) % g.step # 0 \/ g.kind = "null" THEN NULL
+            ELSE IF g.kind = "tok" THEN g.tok ELSE Val(g.kind, r)
+ScanOK(mm, ww, fs, s) ==
+    /\ \A i \in DOMAIN s.segs : SegOK(mm, ww, fs, s.key, s.segs[i])
+    /\ \A i \in DOMAIN s.outs : GetOf(mm, ww, fs, s.outs[i][1], s.key) = s.outs[i][2]
+    \* the segments tile the window
+    /\ s.from <= s.to => /\ Len(s.segs) >= 1 /\ s.segs[1].lo = s.from /\ s.segs[Len(s.segs)].hi = s.to
+                         /\ \A i \in 1..(Len(s.segs) - 1) : s.segs[i + 1].lo = s.segs[i].hi + 1
+    /\ s.from > s.to => Len(s.segs) = 0
+    \* the scan really looked at every row where the model holds something
+    /\ \E outrows \in {{s.outs[i][1] : i \in DOMAIN s.outs}} :
+          \A p \in ww : p[2] = s.key /\ mm[p] \notin {ABSENT, NULL}
+                           => (p[1] >= s.from /\ p[1] <= s.to) \/ p[1] \in outrows
+    /\ \A i \in DOMAIN fs : fs[i].key = s.key
+                              => fs[i].lo >= s.from /\ fs[i].lo + (fs[i].n - 1) * fs[i].step <= s.to
 
 ObsOK(o) ==
-    /\ \A i \in DOMAIN o.reads : GetOf(m', fills', o.reads[i][1], o.reads[i][2]) = o.reads[i][3]
-    /\ \A i \in DOMAIN o.keys : KeysOKOf(m', fills', o.keys[i][1], o.keys[i][2])
-    /\ \A i \in DOMAIN o.scans : ScanOK(m', fills', o.scans[i])
+    /\ \A i \in DOMAIN o.reads : GetOf(m', wr', fills', o.reads[i][1], o.reads[i][2]) = o.reads[i][3]
+    /\ \A i \in DOMAIN o.keys : KeysOKOf(m', wr', fills', cols', o.keys[i][1], o.keys[i][2])
+    /\ \A i \in DOMAIN o.scans : ScanOK(m', wr', fills', o.scans[i])
 
 \* the cell / row an event wrote must be among the reads (the binding cannot be skipped)
 ReadsCell(o, r, k) == \E i \in DOMAIN o.reads : o.reads[i][1] = r /\ o.reads[i][2] = k
@@ -42,8 +51,9 @@ ListsRow(o, r) == \E i \in DOMAIN o.keys : o.keys[i][1] = r
 
 TInit == CInit /\ TBInit
 
-T_Reset == ResetBook /\ m' = <<>> /\ fills' = <<>>
-T_Fail == FailBook /\ m' = <<>> /\ fills' = <<>>
+Blank == m' = <<>> /\ wr' = {} /\ fills' = <<>> /\ cols' = {}
+T_Reset == ResetBook /\ Blank
+T_Fail == FailBook /\ Blank
 T_Fill == /\ IsEv("Fill") /\ Ev.res = "ok"
           /\ Fill(Ev.key, Ev.lo, Ev.n, Ev.step, Ev.kind)
           /\ ObsOK(Ev.obs) /\ Same
